@@ -30,7 +30,9 @@ Fixpoint list_eqb (a b : list Z) : bool :=
   | _, _ => false
   end.
 
-Definition suffixb (p l : list Z) : bool := prefixb (rev p) (rev l).
+(* p is a suffix of l (no list reversal: List.rev is quadratic when extracted) *)
+Definition suffixb (p l : list Z) : bool :=
+  (length p <=? length l)%nat && list_eqb (skipn (length l - length p) l) p.
 
 (* least k' >= 0 such that p is a prefix of (skipn k' l); result offset by k *)
 Fixpoint find_first (p l : list Z) (k : nat) : option nat :=
